@@ -114,8 +114,8 @@ func c13Cursor(p *Program, r *Report) {
 		r.Unresolved("messages.Reader")
 		return
 	}
-	pos, buf := fieldVar(c.ReaderT, "pos"), fieldVar(c.ReaderT, "buf")
-	check := p.methodNamed(c.ReaderT, "check")
+	pos, buf := c.RPos, c.RBuf
+	check := c.Check
 	if pos == nil || buf == nil || check == nil {
 		r.Unresolved("Reader.pos / Reader.buf / Reader.check")
 		return
@@ -492,11 +492,11 @@ func (p *Program) allocParams(fn *ssa.Function, depth int) map[int]bool {
 
 func c13Alloc(p *Program, r *Report) {
 	c := p.codec()
-	check := p.methodNamed(c.ReaderT, "check")
+	check := c.Check
 	scope := p.codecScope()
 	// the frame reader is in scope as well
 	for _, fn := range p.Mod {
-		if fn.Name() == "onReadConn" {
+		if rm := p.remoting(); rm != nil && fn == rm.ReadFn {
 			scope[fn] = &cgStep{}
 		}
 	}
@@ -614,10 +614,10 @@ func c13Alloc(p *Program, r *Report) {
 // c13Loops: "never loops". A loop test against a wire-supplied integer is an attacker-chosen iteration count.
 func c13Loops(p *Program, r *Report) {
 	c := p.codec()
-	check := p.methodNamed(c.ReaderT, "check")
+	check := c.Check
 	scope := p.codecScope()
 	for _, fn := range p.Mod {
-		if fn.Name() == "onReadConn" {
+		if rm := p.remoting(); rm != nil && fn == rm.ReadFn {
 			scope[fn] = &cgStep{}
 		}
 	}
@@ -1081,7 +1081,7 @@ func c13NilDerefs(p *Program, r *Report, fn *ssa.Function) {
 func c13Temporaries(p *Program, r *Report) {
 	c := p.codec()
 	read := p.methodNamed(c.ReaderT, "Read")
-	rr := p.methodNamed(c.ReaderT, "readReflect")
+	rr := c.ReadReflect
 	if read == nil || rr == nil {
 		r.Unresolved("Reader.Read / Reader.readReflect")
 		return
@@ -1430,7 +1430,7 @@ func (p *Program) guardedInside(fn *ssa.Function, in ssa.Instruction, prm *ssa.P
 	if !ok {
 		return false
 	}
-	check := p.methodNamed(p.codec().ReaderT, "check")
+	check := p.codec().Check
 	chk, _ := callEdges(g, func(cc *ssa.Call) bool {
 		return check != nil && cc.Call.StaticCallee() == check && len(cc.Call.Args) == 2 && strip(cc.Call.Args[1]) == ssa.Value(prm)
 	})
